@@ -45,6 +45,28 @@ JudgeFit(ev) ==
   IF \A i \in 1..4 : got[i].ok /\ Abs(got[i].k - want[i]) <= tol THEN "ok"
   ELSE "placement differs from the rational model"
 
+(* fit10 (round 10): sizes that are not dyadic - tenths of a unit, n/10 rounded to float32 (the arguments must be exactly  *)
+(* DivRN(n, 10)).  The expected rectangle is the rational one for the integers n, in real units (denominator 10 f.d); the  *)
+(* arguments carry a relative rounding error of 2^-24 each, far inside the 2^-20 tolerance of the larger of target and     *)
+(* result size.  This is where float32 results land one unit in the last place beyond the target.                          *)
+JudgeFit10(ev) ==
+  IF ~(/\ IsZero(ev.vb[1]) /\ IsZero(ev.vb[2]) /\ ev.vb[3] = DivRN(ev.n4[1], 10) /\ ev.vb[4] = DivRN(ev.n4[2], 10)
+       /\ ev.d[1] = DivRN(ev.n4[3], 10) /\ ev.d[2] = DivRN(ev.n4[4], 10)
+       /\ \A i \in 1..2 : ev.a[i] = OfScaled(ev.a4[i], 2)
+       /\ \A i \in 1..4 : ev.n4[i] >= 1 /\ ev.n4[i] <= 4000) THEN "hint"
+  ELSE
+  LET f  == Fit(ev.n4[1], ev.n4[2], ev.n4[3], ev.n4[4], ev.a4[1], ev.a4[2], ev.kind = "meet")
+      D  == f.d * 10
+      big == Max2(Max2(ev.n4[3], ev.n4[4]) * f.d, Max2(Abs(f.maxX - f.minX), Abs(f.maxY - f.minY)))
+      L  == Log2((big \div D) + 1) + 1
+      Q  == Min2(20, 27 - L)
+      want == << ScaleDiv(f.minX, D, Q), ScaleDiv(f.minY, D, Q), ScaleDiv(f.maxX, D, Q), ScaleDiv(f.maxY, D, Q) >>
+      tol == ((big \div D) + 1) \div Pow2(20 - Q) + 2
+      got == [i \in 1..4 |-> FloorScaled(ev.got[i], Q)] IN
+  IF D >= 262144 THEN "hint"
+  ELSE IF \A i \in 1..4 : got[i].ok /\ Abs(got[i].k - want[i]) <= tol THEN "ok"
+  ELSE "placement differs from the rational model (tenths)"
+
 JudgeSize(ev) ==
   IF ~(\A i \in 1..4 : ev.vb[i] = OfScaledAny(ev.vb4[i], 2 - ev.e1)) THEN "hint"
   ELSE IF /\ ev.got[1] = OfScaledAny(ev.vb4[3] - ev.vb4[1], 2 - ev.e1)
@@ -68,7 +90,7 @@ JudgeRand(ev) ==
      IF meet /\ ~(NonNegish(g[1]) /\ NonNegish(g[2])) THEN "meet starts before the target"
      ELSE "ok"
 
-Judge(ev) == CASE ev.ev = "fit" -> JudgeFit(ev) [] ev.ev = "size" -> JudgeSize(ev)
+Judge(ev) == CASE ev.ev = "fit10" -> JudgeFit10(ev) [] ev.ev = "fit" -> JudgeFit(ev) [] ev.ev = "size" -> JudgeSize(ev)
                [] ev.ev = "rand" -> JudgeRand(ev) [] OTHER -> "unknown event"
 Init == l \in 1..Len(Trace)
 Next == FALSE /\ UNCHANGED vars
